@@ -24,7 +24,9 @@ def main():
     # some demo commands copy the demo from the MUTANTn directory themselves
     shutil.copytree(src, os.path.join(wt, os.path.basename(src.rstrip("/"))), dirs_exist_ok=True)
     cmd = meta["demo_command"].replace(os.path.dirname(os.path.dirname(src.rstrip("/"))) if False else "/tmp/mut_" + meta["property"], wt)
-    cmd = cmd.replace("<repo root>", wt)
+    cmd = cmd.replace("<repo root>", wt).replace("/tmp/mut2_" + meta["property"], wt)
+    root = os.path.dirname(src.rstrip("/"))
+    cmd = cmd.replace(root, wt)
     cwd = wt
     res = {"demo_command": cmd}
     rc0, out0 = sh(cmd, cwd=cwd)
